@@ -40,6 +40,7 @@ def unhex(s):
     return bytes.fromhex(s)
 
 
+DONE_ERRORS = ('ContextExited', 'CodecError', 'QuotaExceeded', 'MaximumPacketSizeExceeded', 'PubackError', 'PubrecError', 'PubcompError')
 ERR_LOCAL = ('CodecError', 'MaximumPacketSizeExceeded', 'QuotaExceeded', 'ContextExited')
 
 
@@ -300,6 +301,10 @@ def o_generic(I):
                      and pget(x['pkt']['props'], 41) == 0 for x in I.events)
             if not ok:
                 out.append((I.name, e['seg'], 'documented assertion fired without its cause'))
+        if e['kind'] == 'done' and e['text'].startswith('err ') and e['text'].split(' ')[1] not in DONE_ERRORS:
+            # an operation fails with: ContextExited, a local refusal, or the error acknowledgement addressed to it — nothing else
+            # (in particular never SocketClosed / HandleClosed / InternalError: theorems done_has_a_documented_cause, no_internal_error)
+            out.append((I.name, e['seg'], f"op{e['op'].id if e['op'] else '?'} completed with `{e['text']}`: not an outcome an operation can have"))
         if e['kind'] == 'stall' and not e.get('ctxheld'):
             # (while the SCRIPT holds the context task unread input is the script's doing: theorem stall_only_when_context_held)
             out.append((I.name, e['seg'], 'stall: unread transport input while the context task sleeps'))
